@@ -127,7 +127,7 @@ def gen_convex(r):
 def gen_to_function(r, info):
     N, cls = info["N"], info["cls"]
     cands = [["value", p] for p in info["ps"] if p not in info.get("guess_params", ())] + [["sample_p", p] for p in info["pcs"]]
-    cands += [["value_v", v] for v in info["vs"]] + [["sample_v", v] for v in info["vcs"]]
+    cands += [["value_v", v] for v in info["vs"] if v not in info.get("chain_deps", ())] + [["sample_v", v] for v in info["vcs"]]
     # CasADi accepts purely symbolic arguments only: DirectCollocation keeps all states (controls) of a node in
     # one variable, so there only the whole vector can be listed
     whole = cls == "DirectCollocation"
@@ -327,9 +327,13 @@ class World19:
         self.probe("to_function_taken")
         return "ok"
 
-    def imperative(self, spec, fstep, vals):
+    def imperative(self, spec, fstep, vals, pre=False):
         """the stateful pipeline on a replica written afresh from `spec`"""
         rep = build(program(spec), "replica")
+        if pre:
+            # the user's OCP is transcribed when the values arrive (to_function itself transcribes it): a query does that
+            rep.ocp.sample(rep.ocp.t, grid="control")
+            self.probe("replica_transcribed_before_values")
         for a, v in zip(fstep["args"], vals):
             k, n = a
             if k == "value":
@@ -414,7 +418,7 @@ class World19:
         errs = []
         for label, spec in variants:
             try:
-                exp = self.imperative(spec, fstep, vals)
+                exp = self.imperative(spec, fstep, vals, pre=bool(step.get("pre")))
             except Exception as e:
                 errs.append("%s: imperative pipeline raised %s: %s" % (label, type(e).__name__, str(e)[:200]))
                 continue
@@ -495,6 +499,15 @@ def gen_run(r, w, emit):
     if r.random() < 0.4:
         x = G.pick(r, info["xs"])
         emit({"op": "set_initial", "x": x, "g": ["expr", G.gen_time_expr(r)]})
+    if info["vs"] and r.random() < 0.4:
+        # a guess that builds on another guess (rockit evaluates guess expressions at the current starting point): the
+        # global variable first, then a signal whose guess mentions it.  The variable is then never listed as an
+        # argument (whether a dependent guess follows a listed one is not settled by the statement).
+        v = info["vs"][0]
+        emit({"op": "set_initial", "x": v, "g": ["num", G.rnum(r)]})
+        x = G.pick(r, info["xs"] + info["us"])
+        emit({"op": "set_initial", "x": x, "g": ["expr", ["*", ["s", v], ["+", ["c", 1.0], G.gen_time_expr(r)]]]})
+        info["chain_deps"] = {v}
     info["guessed"] = set(x for x, g in sp.initial)
     args, res, vals = gen_to_function(r, info)
     tf = {"op": "to_function", "name": "F1", "args": args, "results": res}
@@ -506,18 +519,18 @@ def gen_run(r, w, emit):
     emit(tf)
     for i in range(r.randint(0, 3)):
         history_step(exported=True)
-    emit({"op": "evaluate", "name": "F1", "vals": vals})
+    emit({"op": "evaluate", "name": "F1", "vals": vals, "pre": r.random() < 0.5})
     if r.random() < 0.35:
         # the function is exported again (same name, same expressions) after unlisted values have changed
         for i in range(r.randint(1, 3)):
             history_step(exported=True)
         emit(dict(tf))
-        emit({"op": "evaluate", "name": "F1", "vals": [gen_val(r, a, info) for a in args]})
+        emit({"op": "evaluate", "name": "F1", "vals": [gen_val(r, a, info) for a in args], "pre": r.random() < 0.5})
     if r.random() < 0.4:
         _, _, vals2 = gen_to_function(random.Random(r.randrange(1 << 30)), info)
         # same shapes as the first set: regenerate per arg
         vals2 = [gen_val(r, a, info) for a in args]
-        emit({"op": "evaluate", "name": "F1", "vals": vals2})
+        emit({"op": "evaluate", "name": "F1", "vals": vals2, "pre": r.random() < 0.5})
     return info
 
 
